@@ -33,8 +33,39 @@ def engines():
     return out
 
 
+SPARK_BITS = {"ByteType": 8, "ShortType": 16, "IntegerType": 32, "LongType": 64, "FloatType": 32, "DoubleType": 64}
+
+
+def native_bits(t):
+    """bit width of the *native* type a pandera data type boxes (numpy / pandas extension / pyarrow / polars / spark);
+    None when it cannot be told — the caller then falls back to pandera's own `bit_width` metadata"""
+    nt = getattr(t, "type", None)
+    if nt is None:
+        return None
+    try:
+        import numpy as np
+        if isinstance(nt, np.dtype):
+            return nt.itemsize * 8
+        nd = getattr(nt, "numpy_dtype", None)               # pandas nullable extension dtypes
+        if isinstance(nd, np.dtype):
+            return nd.itemsize * 8
+        pad = getattr(nt, "pyarrow_dtype", None)            # pandas ArrowDtype
+        if pad is not None and hasattr(pad, "bit_width"):
+            return int(pad.bit_width)
+    except Exception:  # noqa: BLE001
+        pass
+    name = type(nt).__name__ if not isinstance(nt, type) else nt.__name__
+    if name in SPARK_BITS:
+        return SPARK_BITS[name]
+    import re
+    m = re.fullmatch(r"U?Int(\d+)|Float(\d+)", name)     # polars
+    if m:
+        return int(m.group(1) or m.group(2))
+    return None
+
+
 def classify(t):
-    """(kind, signed, bits) for physical types; kind 'other' otherwise"""
+    """(kind, signed, bits) for physical types; kind 'other' otherwise.  The width is the native type's"""
     from pandera import dtypes
     kind, signed, bits = "other", None, None
     try:
@@ -62,6 +93,10 @@ def classify(t):
             kind = "binary"
     except Exception:  # noqa: BLE001
         pass
+    if kind in ("int", "float", "complex"):
+        nb = native_bits(t)
+        if nb is not None:
+            bits = nb
     return kind, signed, bits
 
 
